@@ -55,6 +55,9 @@ func Commit(db objects.Store, rs ref.Store, id uuid.UUID) (commits map[string]*o
 	if err != nil {
 		return nil, err
 	}
+	if tx.Status == ref.TSCommitted {
+		return nil, fmt.Errorf("transaction %s is already committed", id)
+	}
 	m, err := ref.ListTransactionRefs(rs, id)
 	if err != nil {
 		return nil, err
@@ -97,6 +100,13 @@ func Commit(db objects.Store, rs ref.Store, id uuid.UUID) (commits map[string]*o
 }
 
 func Discard(rs ref.Store, id uuid.UUID) (err error) {
+	tx, err := rs.GetTransaction(id)
+	if err != nil {
+		return err
+	}
+	if tx.Status == ref.TSCommitted {
+		return fmt.Errorf("cannot discard committed transaction")
+	}
 	if err = ref.DeleteTransactionRefs(rs, id); err != nil {
 		return
 	}
